@@ -189,11 +189,16 @@ def wl_fileproxy(ctx, rng, case_no):
     bounds = [0] + cuts + [n]
     esc = escape_spans(stream)
     ops = []
+    # (a flush that falls INSIDE an escape sequence - the program flushes between two writes that cut one - is generated
+    # for a small share of the cases only: what it does is a recorded known finding)
+    flush_in_escape = rng.random() < 0.04
     for a, b in zip(bounds, bounds[1:]):
         ops.append(("write", stream[a:b]))
         inside = any(x < b < y for x, y in esc)
-        if rng.random() < 0.3 and not inside:
+        if rng.random() < 0.3 and (not inside or flush_in_escape):
             ops.append(("flush",))
+            if inside:
+                features.add("flush_inside_escape")
     if rng.random() < 0.2:
         ops.insert(rng.randint(0, len(ops)), ("write", ""))
     ops.append(("flush",))
@@ -241,6 +246,8 @@ def wl_fileproxy(ctx, rng, case_no):
         tag += ":crlf-line-endings"
     if "reset_inside_link" in features:
         tag += ":sgr-reset-inside-a-hyperlink"
+    if "flush_inside_escape" in features:
+        tag = ":flush-inside-an-escape-sequence"
     if got.unexpected:
         ctx.violation("unexpected-sequence-in-output" + tag, dict(wit, unexpected=got.unexpected[:3]))
     elif got.text != want.text:
